@@ -608,6 +608,33 @@ func TestVerifC18Concurrent(t *testing.T) {
 			}
 			return nil
 		})
+		// an observer stands in for "an interruption at any instant": once the list exists, there is no moment at which
+		// it does not - a replace that removes the old file before the new one is in place would leave nothing behind
+		localPath := filepath.Join(dir, "bl", "local")
+		stopObs := make(chan struct{})
+		var obsDone sync.WaitGroup
+		var vanished atomic.Int64
+		var looks atomic.Int64
+		obsDone.Add(1)
+		go func() {
+			defer obsDone.Done()
+			seen := false
+			for {
+				select {
+				case <-stopObs:
+					return
+				default:
+				}
+				_, err := os.Lstat(localPath)
+				looks.Add(1)
+				switch {
+				case err == nil:
+					seen = true
+				case seen && os.IsNotExist(err):
+					vanished.Add(1)
+				}
+			}
+		}()
 		var wg sync.WaitGroup
 		var waiting atomic.Int64
 		for w := 0; w < W; w++ {
@@ -630,7 +657,12 @@ func TestVerifC18Concurrent(t *testing.T) {
 			}(w)
 		}
 		wg.Wait()
+		close(stopObs)
+		obsDone.Wait()
 		verifhook.SetFailer(nil)
+		if n := vanished.Load(); n > 0 {
+			rt.Fatalf("while the API calls ran, the persisted list %s did not exist at %d of %d looks after it had existed: an interruption there leaves no list at all (scripts %v)", localPath, n, looks.Load(), scripts)
+		}
 		mem := vfC18MemLines(b)
 		file, ok := vfC18FileLines(filepath.Join(dir, "bl"))
 		if !ok && len(mem) > 0 {
